@@ -79,10 +79,10 @@ Print Assumptions C14_monotone_up_to_depletion.
 (* the expression the tie compares every implementation value with IS the chain solution *)
 Theorem C14_model_spec_is_chain_solution : forall sb r amass mass env t br a m lam spec,
   activity_row_with sb r amass mass env t = OAct br a m lam spec ->
-  evalR no_env_R spec =
+  evalR ln2_env_R spec =
     activity_end (chain_of br) (Q2R mass) (IZR amass) (Q2R (row_flux r env)) (Q2R (fluence env))
                  (Q2R (row_xs r env)) (Q2R (row_xs2 r env)) (Q2R (r_thalf r)) (Q2R (r_thalf_par r)) (Q2R t)
-  /\ evalR no_env_R lam = decay_const (Q2R (r_thalf r)).
+  /\ evalR ln2_env_R lam = decay_const (Q2R (r_thalf r)).
 Proof. exact model_spec_is_chain_solution. Qed.
 Print Assumptions C14_model_spec_is_chain_solution.
 
@@ -92,7 +92,7 @@ Theorem C14_model_refines_spec : forall sb r amass mass env t br a m lam spec,
   br <> BSmall ->
   (br = BMain -> decay_const (Q2R (r_thalf r)) - rate (Q2R (row_flux r env)) (Q2R (row_xs r env))
                  + rate (Q2R (fluence env)) (Q2R (row_xs2 r env)) <> 0) ->
-  evalR no_env_R a =
+  evalR ln2_env_R a =
     activity_end (chain_of br) (Q2R mass) (IZR amass) (Q2R (row_flux r env)) (Q2R (fluence env))
                  (Q2R (row_xs r env)) (Q2R (row_xs2 r env)) (Q2R (r_thalf r)) (Q2R (r_thalf_par r)) (Q2R t).
 Proof. exact model_activity_is_chain_solution. Qed.
@@ -104,7 +104,7 @@ Theorem C14_model_refines_spec_without_small_branch : forall r amass mass env t 
   activity_row_with false r amass mass env t = OAct br a m lam spec ->
   (br = BMain -> decay_const (Q2R (r_thalf r)) - rate (Q2R (row_flux r env)) (Q2R (row_xs r env))
                  + rate (Q2R (fluence env)) (Q2R (row_xs2 r env)) <> 0) ->
-  evalR no_env_R a =
+  evalR ln2_env_R a =
     activity_end (chain_of br) (Q2R mass) (IZR amass) (Q2R (row_flux r env)) (Q2R (fluence env))
                  (Q2R (row_xs r env)) (Q2R (row_xs2 r env)) (Q2R (r_thalf r)) (Q2R (r_thalf_par r)) (Q2R t).
 Proof. exact model_refines_spec_repaired. Qed.
@@ -124,8 +124,8 @@ Theorem C14_small_branch_refuted :
   exists r amass mass env t a m lam spec,
     physical mass env t /\
     activity_row_with true r amass mass env t = OAct BSmall a m lam spec /\
-    0 < evalR no_env_R spec /\
-    evalR no_env_R a > (149 / 100) * evalR no_env_R spec.
+    0 < evalR ln2_env_R spec /\
+    evalR ln2_env_R a > (149 / 100) * evalR ln2_env_R spec.
 Proof. exact small_branch_refuted. Qed.
 Print Assumptions C14_small_branch_refuted.
 
@@ -135,8 +135,8 @@ Theorem C14_never_raises_refuted :
 Proof. exact small_branch_raises_refuted. Qed.
 Print Assumptions C14_never_raises_refuted.
 
-Theorem C14_model_rest_decay_exact : forall a lam T ti, evalR no_env_R lam = decay_const T ->
-  evalR no_env_R (rest_model a lam ti) = activity_rest (evalR no_env_R a) T (Q2R ti).
+Theorem C14_model_rest_decay_exact : forall a lam T ti, evalR ln2_env_R lam = decay_const T ->
+  evalR ln2_env_R (rest_model a lam ti) = activity_rest (evalR ln2_env_R a) T (Q2R ti).
 Proof. exact model_rest_decay_exact. Qed.
 Print Assumptions C14_model_rest_decay_exact.
 
@@ -177,16 +177,16 @@ Theorem C14_activity_nonneg : forall rows, the_rows = Some rows -> forall r, In 
   activity_row_with sb r (r_A r) mass env t = OAct br a m lam spec ->
   distinct_rates (chain_of br) (Q2R (row_flux r env)) (Q2R (fluence env)) (Q2R (row_xs r env)) (Q2R (row_xs2 r env))
                  (Q2R (r_thalf r)) (Q2R (r_thalf_par r)) ->
-  0 <= evalR no_env_R spec /\ (br <> BSmall -> 0 <= evalR no_env_R a).
+  0 <= evalR ln2_env_R spec /\ (br <> BSmall -> 0 <= evalR ln2_env_R a).
 Proof. exact activity_nonneg. Qed.
 Print Assumptions C14_activity_nonneg.
 
 (* ---------------- the comparison rule of the tie is a theorem about the meaning *)
 Theorem C14_tolerance_test_sound : forall tp py v scale fl,
   (is_ge0 (sign_of (slack tp py v scale fl)) = true ->
-   Rabs (Q2R py - evalR no_env_R v) <= Q2R (D2Q 1 tp) * Rabs (evalR no_env_R scale) + Q2R fl) /\
+   Rabs (Q2R py - evalR ln2_env_R v) <= Q2R (D2Q 1 tp) * Rabs (evalR ln2_env_R scale) + Q2R fl) /\
   (is_lt0 (sign_of (slack tp py v scale fl)) = true ->
-   Rabs (Q2R py - evalR no_env_R v) > Q2R (D2Q 1 tp) * Rabs (evalR no_env_R scale) + Q2R fl).
+   Rabs (Q2R py - evalR ln2_env_R v) > Q2R (D2Q 1 tp) * Rabs (evalR ln2_env_R scale) + Q2R fl).
 Proof. exact (fun tp py v scale fl => conj (slack_sound tp py v scale fl) (slack_violated_sound tp py v scale fl)). Qed.
 Print Assumptions C14_tolerance_test_sound.
 
